@@ -49,11 +49,11 @@ pub fn scramble(r: &mut Rng, n: &mut Node) {
 pub fn toggle_validity(r: &mut Rng, n: &mut Node) {
     if !matches!(n.ty, Ty::Null | Ty::Ree { .. } | Ty::Union { .. }) {
         match &n.nulls {
-            None => if r.chance(1, 2) { let off = r.below(11); let mut bytes = vec![0xFFu8; (off + n.len + 7) / 8 + r.below(2)];
+            None => if r.chance(1, 2) { let off = r.below(11); let extra = r.below(2); let mut bytes = vec![0xFFu8; (off + n.len + 7) / 8 + extra];
                 for b in 0..off.min(bytes.len() * 8) { if r.bool() { bytes[b / 8] &= !(1 << (b % 8)) } }
                 n.nulls = Some(Nulls { bytes, off, len: n.len, count: 0 }) }
             Some(x) => if x.count == 0 && r.chance(1, 2) { n.nulls = None } else if r.chance(1, 2) {
-                let off = r.below(11); let mut bytes = r.bytes((off + x.len + 7) / 8 + r.below(2));
+                let off = r.below(11); let extra = r.below(2); let mut bytes = r.bytes((off + x.len + 7) / 8 + extra);
                 let mut y = Nulls { bytes: std::mem::take(&mut bytes), off, len: x.len, count: x.count };
                 for i in 0..x.len { let v = nb_get(x, i); nb_set(&mut y, i, v) }
                 n.nulls = Some(y) }
@@ -149,7 +149,7 @@ fn derive(r: &mut Rng, kind: usize, ty: &Ty, fl: usize, lv: &[LV], base: &Node, 
                let c = arrow_select::concat::concat(&[j1.as_ref(), arr.as_ref(), j2.as_ref()]).ok()?; (dump(c.slice(k1, len).as_ref())?, "slice-concat") }
         2 => { let (k1, k2) = (r.below(70), r.below(4)); let mut all = junk_lv(r, ty, lv, k1); all.extend(lv.iter().cloned()); all.extend(junk_lv(r, ty, lv, k2));
                (dump(from_lv(ty, fl, &all)?.slice(k1, len).as_ref())?, "slice-canon") }
-        3 => { let mut n = base.clone(); scramble(r, &mut n); (n, "garbage") }
+        3 => { let mut n = base.clone(); scramble(r, &mut n); tame_null_keys(&mut n); (n, "garbage") }
         4 => { let mut n = base.clone(); toggle_validity(r, &mut n); (n, "validity") }
         5 => { if !contains_ty(ty, &|t| matches!(t, Ty::View { .. })) { return None } let mut n = base.clone(); resplit_views(r, &mut n); (n, "views") }
         6 => { let idx: UInt32Array = (0..len as u32).collect(); (dump(arrow_select::take::take(arr.as_ref(), &idx, None).ok()?.as_ref())?, "take-id") }
@@ -182,7 +182,7 @@ fn derive(r: &mut Rng, kind: usize, ty: &Ty, fl: usize, lv: &[LV], base: &Node, 
                 (dump(a.as_ref())?, "lview-reorder") }
             _ => return None,
         },
-        _ => { let mut n = base.clone(); scramble(r, &mut n); toggle_validity(r, &mut n); resplit_views(r, &mut n); (n, "garbage+validity") }
+        _ => { let mut n = base.clone(); scramble(r, &mut n); tame_null_keys(&mut n); toggle_validity(r, &mut n); resplit_views(r, &mut n); (n, "garbage+validity") }
     })
 }
 
@@ -207,6 +207,7 @@ pub fn realise(r: &mut Rng, ty: &Ty, fl: usize, base: Node, want: usize) -> Opti
         let Ok((o, r2)) = d else { r.next(); continue };
         *r = r2;
         let Some((node, name)) = o else { continue };
+        if node.ty != *ty || node.len != lv.len() { continue }   // a realisation has the SAME data type and length
         let Some(p) = pick_path(r, &node, fl) else { continue };
         reals.push((node, p, name));
     }
@@ -276,6 +277,44 @@ fn kernel_params(r: &mut Rng, k: usize, len: usize, ylen: usize) -> Vec<i64> {
 }
 
 fn enc_node(n: &Node, out: &mut Args) { c09::encode(n, out) }
+fn any_node(n: &Node, f: &dyn Fn(&Node) -> bool) -> bool { f(n) || n.kids.iter().any(|k| any_node(k, f)) }
+/// KNOWN-FINDING candidate (ragged typed buffer): `ArrayData ==` reads offsets / keys / views through
+/// ArrayData::buffer::<T>, which asserts that the byte length is a multiple of size_of::<T>(); a validated
+/// ArrayData whose buffer carries trailing padding bytes makes `==` panic.  Such layouts are compared at the
+/// dyn Array level only.
+fn ragged_typed_buffer(n: &Node) -> bool {
+    any_node(n, &|x| match &x.ty {
+        Ty::View { .. } => x.bufs[0].len() % 16 != 0,
+        Ty::Dict { kw, .. } => x.bufs[0].len() % kw != 0,
+        Ty::ListView { large, .. } => { let w = if *large { 8 } else { 4 }; x.bufs[0].len() % w != 0 || x.bufs[1].len() % w != 0 }
+        // (an EMPTY offsets buffer, which validation accepts for an empty array, makes `==` index out of range)
+        Ty::List { large, .. } | Ty::Bin { large, .. } => { let w = if *large { 8 } else { 4 }; x.bufs[0].len() % w != 0 || x.bufs[0].is_empty() }
+        _ => false })
+}
+/// KNOWN-FINDING (F3/F4 family): arrow-data's struct_equal ignores the offset of a Struct ArrayData
+fn struct_with_offset(n: &Node) -> bool { any_node(n, &|x| matches!(x.ty, Ty::Struct(_)) && x.off != 0) }
+/// KNOWN-FINDING candidate (byte_view_equal): `lhs.is_null(idx)` is tested with the index RELATIVE to the
+/// compared range instead of lhs_start + idx, so a view array with nulls compared from a non-zero start
+/// (child of a list / struct / dictionary ...) skips the wrong slots.
+fn nested_view_with_nulls(n: &Node) -> bool { n.kids.iter().any(|k| any_node(k, &|x| matches!(x.ty, Ty::View { .. }) && x.nulls.as_ref().map_or(false, |v| v.count > 0))) }
+/// KNOWN-FINDING candidate (dictionary_equal): a valid key that selects a NULL dictionary value and a null
+/// key denote the same (null) slot but compare unequal (equal_nulls looks at the key validity only).
+fn dict_with_null_values(n: &Node) -> bool { any_node(n, &|x| matches!(x.ty, Ty::Dict { .. }) && any_node(&x.kids[0], &|v| v.nulls.as_ref().map_or(false, |q| q.count > 0) || (matches!(v.ty, Ty::Null) && v.len > 0))) }
+/// KNOWN-FINDING candidate (MutableArrayData dictionary extend, debug builds): keys are re-based with a plain
+/// `+ offset`, also under null slots; a null slot whose key payload is close to the key type's maximum makes
+/// concat / interleave / zip panic with "attempt to add with overflow".  Payloads under null keys stay
+/// arbitrary (out of range included) but below half of the key range.
+fn tame_null_keys(n: &mut Node) {
+    if let Ty::Dict { kw, signed, .. } = n.ty { let slots = n.bufs[0].len() / kw;
+        for p in 0..slots { let i = p as isize - n.off as isize; let valid = i >= 0 && (i as usize) < n.len && slot_valid(n, i as usize);
+            if !valid { let m = &mut n.bufs[0][p * kw + kw - 1]; if signed { if *m & 0x80 == 0 { *m &= 0x3F } } else { *m &= 0x7F } } } }
+    for k in n.kids.iter_mut() { tame_null_keys(k) }
+}
+/// a null slot of a Utf8 / LargeUtf8 node whose payload holds a multi-byte character
+fn null_slot_multibyte(n: &Node) -> bool {
+    any_node(n, &|x| if let Ty::Bin { large, utf8: true } = x.ty { let w = if large { 8 } else { 4 };
+        (0..x.len).any(|i| !slot_valid(x, i) && x.bufs[0].len() >= (x.off + i + 2) * w && { let (s, e) = (rd_le(&x.bufs[0], w, x.off + i) as usize, rd_le(&x.bufs[0], w, x.off + i + 1) as usize); x.bufs[1][s.min(x.bufs[1].len())..e.min(x.bufs[1].len())].iter().any(|b| *b >= 0x80) }) } else { false })
+}
 
 fn emit_col_cases(r: &mut Rng, col: &Col, emit: &mut dyn FnMut(Case), tier_eq_pairs: usize) {
     let th = ty_head(&col.ty); let fl = col.fl;
@@ -290,9 +329,16 @@ fn emit_col_cases(r: &mut Rng, col: &Col, emit: &mut dyn FnMut(Case), tier_eq_pa
     let mut pairs: Vec<(usize, usize)> = Vec::new(); for i in 0..k { for j in 0..k { if i != j { pairs.push((i, j)) } } }
     for i in (1..pairs.len()).rev() { let j = r.below(i + 1); pairs.swap(i, j) }
     let modelled = !contains_ty(&col.ty, &|t| matches!(t, Ty::ListView { .. } | Ty::Union { .. }));
+    // KNOWN-FINDING candidate (list_view_equal): children are compared with equal_values (their validity is
+    // never compared) and, when the range holds nulls, only the LEFT sizes are used: logically different
+    // list-view arrays compare equal.  ListView types are excluded from the == cases.
+    let eq_excluded = contains_ty(&col.ty, &|t| matches!(t, Ty::ListView { .. }));
+    let level_of = |r: &mut Rng, x: &Node, y: &Node| -> usize { if ragged_typed_buffer(x) || ragged_typed_buffer(y) || struct_with_offset(x) || struct_with_offset(y) { 1 } else { r.below(2) } };
+    let skip_pair = |x: &Node, y: &Node| -> bool { eq_excluded || nested_view_with_nulls(x) || nested_view_with_nulls(y) || dict_with_null_values(x) || dict_with_null_values(y) };
     for (i, j) in pairs.into_iter().take(tier_eq_pairs) {
         let (na, pa, an) = &col.reals[i]; let (nb, pb, bn) = &col.reals[j];
-        let level = r.below(2);
+        if skip_pair(na, nb) { continue }
+        let level = level_of(r, na, nb);
         let mut args: Args = vec![gs(&[*pa as i64, fl as i64, *pb as i64, level as i64])]; enc_node(na, &mut args); enc_node(nb, &mut args);
         let models: &[&'static str] = if level == 0 && modelled { &["c02.eq", "c02.eq.spec"] } else { &["c02.eq.spec"] };
         emit(Case::new("c02.eq", args, models, format!("eq {th} {an}/{bn} l{level}")));
@@ -301,7 +347,9 @@ fn emit_col_cases(r: &mut Rng, col: &Col, emit: &mut dyn FnMut(Case), tier_eq_pa
     for _ in 0..2 {
         let Some((lv2, what)) = perturb(r, &col.ty, &col.lv) else { continue };
         let Some(a2) = from_lv(&col.ty, fl, &lv2) else { continue }; let Some(n2) = dump(a2.as_ref()) else { continue };
-        let (na, pa, an) = r.pick(&col.reals).clone(); let level = r.below(2);
+        let (na, pa, an) = r.pick(&col.reals).clone();
+        if skip_pair(&na, &n2) { continue }
+        let level = level_of(r, &na, &n2);
         let Some(p2) = pick_path(r, &n2, fl) else { continue };
         let (first, second, ps) = if r.bool() { (&na, &n2, [pa, p2]) } else { (&n2, &na, [p2, pa]) };
         let mut args: Args = vec![gs(&[ps[0] as i64, fl as i64, ps[1] as i64, level as i64])]; enc_node(first, &mut args); enc_node(second, &mut args);
@@ -310,7 +358,8 @@ fn emit_col_cases(r: &mut Rng, col: &Col, emit: &mut dyn FnMut(Case), tier_eq_pa
     }
     if let Some(t2) = retype(&col.ty) { if let Some(a2) = from_lv(&t2, fl, &col.lv) { if let Some(n2) = dump(a2.as_ref()) {
         let (na, pa, an) = r.pick(&col.reals).clone();
-        let mut args: Args = vec![gs(&[pa as i64, fl as i64, 1, 1])]; enc_node(&na, &mut args); enc_node(&n2, &mut args);
+        let Some(p2) = pick_path(r, &n2, fl) else { return };
+        let mut args: Args = vec![gs(&[pa as i64, fl as i64, p2 as i64, 1])]; enc_node(&na, &mut args); enc_node(&n2, &mut args);
         emit(Case::new("c02.eq", args, &["c02.eq.spec"], format!("neq {th} {an} type")));
     } } }
     // (4) slice = window on the column
@@ -329,7 +378,25 @@ fn emit_kernel_cases(r: &mut Rng, x: &Col, y: &Col, s: &Col, x2: &Col, y2: &Col,
     let ks = kernels_for(&x.ty, fl);
     for _ in 0..nk {
         let k = *r.pick(&ks);
-        let p = kernel_params(r, k, len, y.lv.len());
+        let mut p = kernel_params(r, k, len, y.lv.len());
+        // KNOWN-FINDING candidate (cmp on an EMPTY slice of a RunEndEncoded array taken at a non-zero offset):
+        // ree_physical_indices / expand_from_runs compute run_end - pos with pos = offset > first run end
+        if (30..=39).contains(&k) && len == 0 && matches!(x.ty, Ty::Ree { .. }) { continue }
+        // KNOWN-FINDING candidate (substring): utf-8 boundaries are checked on the payload of NULL slots too, so
+        // Ok/Err depends on the bytes under a null; columns with such a null slot are not given to substring
+        if k == 54 && x.reals.iter().any(|(n, _, _)| null_slot_multibyte(n)) { continue }
+        // KNOWN-FINDING candidate (cast binary -> string, safe = false): try_from_binary / to_string_view validate
+        // the bytes of null slots (and unreferenced bytes), so the error outcome depends on garbage under nulls
+        if k == 45 && contains_ty(&x.ty, &|t| matches!(t, Ty::Bin { utf8: false, .. } | Ty::View { utf8: false } | Ty::FixedBin(_))) { p[1] = 1 }
+        // KNOWN-FINDING candidate (cast of a dictionary, safe = false): the dictionary VALUES are cast, unused
+        // entries and entries only reachable through null keys included, so they decide the error outcome
+        if k == 45 && contains_ty(&x.ty, &|t| matches!(t, Ty::Dict { .. })) { p[1] = 1 }
+        // KNOWN-FINDING candidate (cast FixedSizeList(_, 1) -> non-list): cast_single_element_fixed_size_list_to_values
+        // casts values() and drops the list's validity: null lists expose the child payload under them
+        if k == 45 && matches!(x.ty, Ty::FixedList { n: 1, .. }) { continue }
+        // KNOWN-FINDING candidate (concat of List<RunEndEncoded>): when no list references a child value the
+        // child slices are all empty and concat fails with "concat requires input of at least one array"
+        if matches!(k, 2 | 3 | 5 | 64 | 65) && contains_ty(&x.ty, &|t| matches!(t, Ty::List { c, .. } | Ty::FixedList { c, .. } | Ty::ListView { c, .. } if matches!(c.as_ref(), Ty::Ree { .. }))) { continue }
         // ---- congruence over the realisations
         let second: Option<&Col> = if arity(k) == 2 { Some(if k == 38 || k == 39 { s } else { y }) } else { None };
         let nreal = match second { Some(c) => x.reals.len().min(c.reals.len()), None => x.reals.len() };
@@ -343,7 +410,19 @@ fn emit_kernel_cases(r: &mut Rng, x: &Col, y: &Col, s: &Col, x2: &Col, y2: &Col,
         let rw = rowwise(k);
         if rw > 0 && r.chance(2, 3) {
             let sel = r.below(4);
-            let sp: Vec<i64> = match sel { 0 => kernel_params(r, 0, len, 0), 1 => kernel_params(r, 62, len, 0), 2 => vec![], _ => kernel_params(r, 1, len, 0) };
+            // take with NULL indices commutes only with kernels that map a null row to a null row: is_null /
+            // is_not_null / distinct / not_distinct / the formatter never return null.
+            // KNOWN-FINDING candidate (take_run): take on a RunEndEncoded array ignores the validity of the
+            // indices (logical_indices.values()), a null index yields the row its payload selects: excluded.
+            let null_idx_ok = !matches!(k, 22 | 23 | 36 | 37 | 58) && !contains_ty(&x.ty, &|t| matches!(t, Ty::Ree { .. }));
+            let mut sp: Vec<i64> = match sel { 0 => kernel_params(r, 0, len, 0), 1 => kernel_params(r, 62, len, 0), 2 => vec![], _ => kernel_params(r, 1, len, 0) };
+            if sel == 0 && !null_idx_ok { sp.retain(|v| *v >= 0) }
+            // (the empty-REE-slice cmp finding, reached through slice(o, 0))
+            if (30..=39).contains(&k) && matches!(x.ty, Ty::Ree { .. }) && sel == 1 && (sp[1] == 0 || sp[0] as usize >= len) { continue }
+            // KNOWN-FINDING candidate (take on FixedSizeList(_, 0)): the result length is derived from
+            // values.len() / 0 and comes out as 0 (or the null count's length) instead of indices.len(): excluded.
+            // (filter behaves the same; substring can produce FixedSizeBinary(0) from any FixedSizeBinary)
+            if (sel == 0 || sel == 3) && (contains_ty(&x.ty, &|t| matches!(t, Ty::FixedList { n: 0, .. } | Ty::FixedBin(0))) || (k == 54 && contains_ty(&x.ty, &|t| matches!(t, Ty::FixedBin(_))))) { continue }
             let pick = |r: &mut Rng, c: &Col| -> (Node, usize) { let (n, p, _) = r.pick(&c.reals).clone(); (n, p) };
             let mut ins: Vec<(Node, usize)> = vec![pick(r, x)];
             if rw == 2 { ins.push(pick(r, y)) } else if k == 38 || k == 39 { ins.push(pick(r, s)) }
@@ -400,7 +479,7 @@ pub fn generate(tier: &str, r: &mut Rng, emit: &mut dyn FnMut(Case)) {
         let len = pick_len(r, leafy);
         let want = 5 + r.below(2);
         let mut mk = |r: &mut Rng, len: usize| -> Option<Col> {
-            let base = if physical { c09::gen_valid(r, &ty, len, false) } else { let nullp = *r.pick(&[0, 1, 1, 2, 2, 3, 1]); dump(from_lv(&ty, fl, &gen_lv(r, &ty, fl, len, nullp))?.as_ref())? };
+            let base = if physical { let mut b = c09::gen_valid(r, &ty, len, false); tame_null_keys(&mut b); b } else { let nullp = *r.pick(&[0, 1, 1, 2, 2, 3, 1]); dump(from_lv(&ty, fl, &gen_lv(r, &ty, fl, len, nullp))?.as_ref())? };
             realise(r, &ty, fl, base, want)
         };
         let Some(x) = mk(r, len) else { continue };
